@@ -47,10 +47,11 @@ func (o *Obligation) buildScript(getValues []*Term) string {
 	fx := o.fx
 	ts := fx.ts
 	s := &Script{ts: ts}
-	s.Asserts = append(s.Asserts, fx.facts[:o.NFacts]...)
+	s.Asserts = append(s.Asserts, fx.relevantFacts(fx.facts[:o.NFacts], o.Goal)...)
 	s.Asserts = append(s.Asserts, ts.Not(o.Goal))
+	s.Asserts = append(s.Asserts, ts.divChainLemmas(s.Asserts)...)
 	if fx.usesSpec {
-		s.Prelude = fx.eng.specText
+		s.Prelude = fx.specPrelude()
 	}
 	return s.Render("", getValues)
 }
@@ -92,7 +93,22 @@ func runSolver(ctx context.Context, sp solverSpec, file string, timeoutS, seed i
 }
 
 // solveScript races the solvers on one script.
+// solveScript first gives z3 5.1 a few seconds on its own (it decides most queries), then races all
+// three solvers with the full time limit.
 func solveScript(script string, dir string, timeoutS, seed int, only string) SolveResult {
+	if only == "" && timeoutS > 3 {
+		r := solveScriptWith(script, dir, 3, seed, "z3-new")
+		if r.Status != "unknown" {
+			return r
+		}
+		r2 := solveScriptWith(script, dir, timeoutS, seed, "")
+		r2.Secs += r.Secs
+		return r2
+	}
+	return solveScriptWith(script, dir, timeoutS, seed, only)
+}
+
+func solveScriptWith(script string, dir string, timeoutS, seed int, only string) SolveResult {
 	h := sha256.Sum256([]byte(script))
 	file := filepath.Join(dir, fmt.Sprintf("%s.%d.smt2", hex.EncodeToString(h[:8]), atomic.AddInt64(&scriptSeq, 1)))
 	if err := os.WriteFile(file, []byte(script), 0o644); err != nil {
@@ -164,6 +180,60 @@ func solveAll(obls []*Obligation, workDir string, timeoutS, seed, par int, cache
 var renderMu sync.Mutex
 
 func (o *Obligation) solve(workDir string, timeoutS, seed int, cache *solveCache) {
+	if len(o.Sub) > 0 {
+		quick := 4
+		if timeoutS < quick {
+			quick = timeoutS
+		}
+		if !o.OnlySubs {
+			o.solveOne(workDir, quick, seed, cache)
+			if o.Status == "proved" || o.Status == "refuted" {
+				return
+			}
+		}
+		var wg sync.WaitGroup
+		for _, s := range o.Sub {
+			if s.Status != "" {
+				continue
+			}
+			wg.Add(1)
+			go func(s *Obligation) {
+				defer wg.Done()
+				subSem <- struct{}{}
+				defer func() { <-subSem }()
+				s.solveOne(workDir, timeoutS, seed, cache)
+			}(s)
+		}
+		wg.Wait()
+		all := true
+		secs := o.Secs
+		for _, s := range o.Sub {
+			secs += s.Secs
+			if s.Status == "refuted" {
+				o.Status, o.Solver, o.Model, o.Output = "refuted", s.Solver, s.Model, s.Output
+				o.Goal = s.Goal
+				o.Secs = secs
+				return
+			}
+			if s.Status != "proved" {
+				all = false
+				o.Output = "case " + s.Name + " undecided:\n" + s.Output
+			}
+		}
+		o.Secs = secs
+		if all {
+			o.Status, o.Solver = "proved", fmt.Sprintf("%d cases", len(o.Sub))
+		} else {
+			o.Status = "unknown"
+		}
+		return
+	}
+	o.solveOne(workDir, timeoutS, seed, cache)
+}
+
+var subSem = make(chan struct{}, 12)
+
+func (o *Obligation) solveOne(workDir string, timeoutS, seed int, cache *solveCache) {
 	renderMu.Lock()
 	var gv []*Term
 	if !o.ExpectSat {
@@ -240,3 +310,99 @@ func (c *solveCache) put(script string, r SolveResult) {
 }
 
 func mustRead(f string) []byte { b, _ := os.ReadFile(f); return b }
+
+// relevantFacts drops assumptions that cannot matter for a goal: a fact that
+// mentions symbols introduced during execution (havoc values, results of
+// calls, new arrays) is kept only when one of those symbols is already
+// connected to the goal. Facts over input symbols only are always kept.
+// Dropping assumptions is sound; it only makes queries smaller.
+func (fx *FuncExec) relevantFacts(facts []*Term, goal *Term) []*Term {
+	if os.Getenv("H2VC_ALLFACTS") != "" {
+		return facts
+	}
+	cone := map[int]bool{}
+	for _, v := range fx.varsOf(goal) {
+		cone[v.id] = true
+	}
+	type finfo struct {
+		all, fresh []*Term
+	}
+	infos := make([]finfo, len(facts))
+	for i, f := range facts {
+		vs := fx.varsOf(f)
+		infos[i].all = vs
+		for _, v := range vs {
+			if !fx.isInputVar(v) {
+				infos[i].fresh = append(infos[i].fresh, v)
+			}
+		}
+	}
+	inc := make([]bool, len(facts))
+	for changed := true; changed; {
+		changed = false
+		for i := range facts {
+			if inc[i] {
+				continue
+			}
+			take := len(infos[i].fresh) == 0
+			for _, v := range infos[i].fresh {
+				if cone[v.id] {
+					take = true
+					break
+				}
+			}
+			if !take {
+				continue
+			}
+			inc[i] = true
+			for _, v := range infos[i].all {
+				if !cone[v.id] {
+					cone[v.id] = true
+					changed = true
+				}
+			}
+		}
+	}
+	var out []*Term
+	for i, f := range facts {
+		if inc[i] {
+			out = append(out, f)
+		}
+	}
+	return out
+}
+
+func (fx *FuncExec) isInputVar(v *Term) bool {
+	return strings.HasPrefix(v.name, "p.") || strings.HasPrefix(v.name, "H0!") || strings.HasPrefix(v.name, "fv.")
+}
+
+func (fx *FuncExec) varsOf(t *Term) []*Term {
+	if fx.varCache == nil {
+		fx.varCache = map[int][]*Term{}
+	}
+	if vs, ok := fx.varCache[t.id]; ok {
+		return vs
+	}
+	seen := map[int]bool{}
+	var out []*Term
+	var walk func(t *Term)
+	walk = func(t *Term) {
+		if seen[t.id] {
+			return
+		}
+		seen[t.id] = true
+		if t.op == "var" {
+			out = append(out, t)
+			return
+		}
+		for _, a := range t.args {
+			walk(a)
+		}
+		for _, p := range t.pat {
+			walk(p)
+		}
+	}
+	walk(t)
+	fx.varCache[t.id] = out
+	return out
+}
